@@ -19,7 +19,7 @@ package util
 //@   ensures s == tostr(cval(c, tag))
 //@ invoke "github.com/brutella/hc/util.Container.SetBytes"(c, tag, value)
 //@   modifies cval(c, tag)
-//@   ensures cval(c, tag) == cat(old(cval(c, tag)), seq(value))
+//@   ensures cval(c, tag) == cat(old(cval(c, tag)), old(seq(value)))
 //@ invoke "github.com/brutella/hc/util.Container.SetByte"(c, tag, value)
 //@   modifies cval(c, tag)
 //@   ensures cval(c, tag) == cat(old(cval(c, tag)), unit(value))
@@ -31,17 +31,133 @@ package util
 //@   pure
 //@   ensures b != nil
 
+// ---- tlv8Container (C16). wpre(t, n) is the wire encoding of the first n items (specification-only state; it grows
+// with the item list: ghostset). itemsOK(t) ties it to the real items, one local step per item, so that no proof needs
+// induction: wpre(t, n+1) = wpre(t, n) | tag | length | value, and length is the length of value.
+// What a reader assembles for a tag is tlvget of the whole encoding (abstraction of the interface's cval).
+//@ ghost wpre(ref, int) seq
+//@ ghost wacc(ref, int) seq
+//@ spec func wmark(int) bool
+//@ axiom wmarkTrue: forallv("n:int", wmark(n), wmark(n))
+// (wmark is a proof marker, always true: the step for item n is unfolded only where wmark(n) is mentioned - without it
+// every unfolding would mention the next prefix and trigger the next unfolding, for ever)
+//@ pred itemsLen(t) = forallv("n:int", wmark(n) && 0 <= n && n < len(t.Items) ==> t.Items[n].length == len(t.Items[n].value), wmark(n))
+//@ pred itemsWf(t) = tlvwf(wpre(t, len(t.Items))) && forallv("n:int", wmark(n) && 0 <= n && n < len(t.Items) ==> tlvwf(wpre(t, n)) && tlvwf(wpre(t, n + 1)), wmark(n))
+//@ pred itemsStep(t) = forallv("n:int", wmark(n) && 0 <= n && n < len(t.Items) ==> wpre(t, n + 1) == cat(wpre(t, n), tlvitem(t.Items[n].tag, seq(t.Items[n].value))), wmark(n))
+//@ pred itemsOK(t) = t != nil && wpre(t, 0) == empty() && itemsLen(t) && itemsWf(t) && itemsStep(t)
+//@ pred wire(t) = wpre(t, len(t.Items))
+//@ pred wa(r, n) = ite(n == 0, empty(), wacc(r, n))
+//@ abstraction cval(t, tag) = tlvget(wpre(t, len(t.Items)), tag)
+//@ typeinv itemsOK
+
 //@ func NewTLV8Container() (c)
 //@   fresh c
 //@   pure
+//@   abstractas "*github.com/brutella/hc/util.tlv8Container"
 //@   ensures c != nil && ref(c) > 0
+//@   detail impl: typeis(c, "*github.com/brutella/hc/util.tlv8Container")
+//@   detail inv: itemsOK(asptr(c, "*github.com/brutella/hc/util.tlv8Container")) && len(asptr(c, "*github.com/brutella/hc/util.tlv8Container").Items) == 0
 //@   ensures forall(t, 0, 256, cval(c, t) == empty())
+//@   ghostinit wpre(c, 0) = empty()
 
+// The parser: succeeds exactly on a sequence of complete items and then holds exactly these items - its serialisation
+// is the input (nothing that was not in the input, nothing lost), so every tag reads what a standard parser assembles.
 //@ func NewTLV8ContainerFromReader(r) (c, err)
 //@   fresh c
-//@   modifies stream(r)
-//@   ensures err == nil ==> c != nil && ref(c) > 0 && forall(t, 0, 256, cval(c, t) == tlvget(old(stream(r)), t))
-//@   ensures err != nil ==> c == nil
+//@   modifies stream(r), wacc(r)
+//@   abstractas "*github.com/brutella/hc/util.tlv8Container"
+//@   ensures ok: err == nil ==> c != nil && ref(c) > 0
+//@   detail impl: err == nil ==> typeis(c, "*github.com/brutella/hc/util.tlv8Container")
+//@   detail inv: err == nil ==> itemsOK(asptr(c, "*github.com/brutella/hc/util.tlv8Container"))
+//@   detail wire: err == nil && r != nil ==> wire(asptr(c, "*github.com/brutella/hc/util.tlv8Container")) == old(stream(r)) && len(stream(r)) == 0
+//@   ensures vals: err == nil && r != nil ==> forall(t, 0, 256, cval(c, t) == tlvget(old(stream(r)), t))
+//@   ensures fail: err != nil ==> c == nil
+//@   ghostinit wpre(c) = wacc(r)
+//@   ghostinit wpre(c, 0) = empty()
+//@   ghostset acc after Read#3: wacc(r, len(items) + 1) = cat(wa(r, len(items)), tlvitem(item.tag, seq(item.value)))
+//@   loop 0
+//@     invariant base: tlvwf(wa(r, len(items))) && (cap(items) == 0 || !existed(items))
+//@     invariant rest: len(stream(r)) <= len(old(stream(r))) && stream(r) == sub(old(stream(r)), len(old(stream(r))) - len(stream(r)), len(old(stream(r))))
+//@     invariant consumed: wa(r, len(items)) == sub(old(stream(r)), 0, len(old(stream(r))) - len(stream(r)))
+//@     invariant ilen: forallv("n:int", wmark(n) && 0 <= n && n < len(items) ==> items[n].length == len(items[n].value), wmark(n))
+//@     invariant iwf: forallv("n:int", wmark(n) && 0 <= n && n < len(items) ==> tlvwf(wa(r, n)) && tlvwf(wa(r, n + 1)), wmark(n))
+//@     invariant istep: forallv("n:int", wmark(n) && 0 <= n && n < len(items) ==> wa(r, n + 1) == cat(wa(r, n), tlvitem(items[n].tag, seq(items[n].value))), wmark(n))
+
+//@ func (t *tlv8Container) GetBuffer(tag) (b)
+//@   requires itemsOK(t)
+//@   fresh b
+//@   pure
+//@   ensures b != nil && stream(b) == tlvget(wire(t), tag)
+//@   loop 0
+//@     invariant idx: 0 <= loopidx && loopidx <= len(t.Items)
+//@     invariant acc: stream(addr(b)) == tlvget(wpre(t, loopidx), tag) && wmark(loopidx)
+
+//@ func (t *tlv8Container) GetBytes(tag) (b)
+//@   refines "github.com/brutella/hc/util.Container.GetBytes"
+//@   requires itemsOK(t)
+//@   pure
+//@   ensures seq(b) == tlvget(wire(t), tag) && len(b) == len(tlvget(wire(t), tag))
+//@ func (t *tlv8Container) GetByte(tag) (b)
+//@   refines "github.com/brutella/hc/util.Container.GetByte"
+//@   requires itemsOK(t)
+//@   pure
+//@   ensures b == ite(len(tlvget(wire(t), tag)) > 0, seqat(tlvget(wire(t), tag), 0), 0)
+//@ func (t *tlv8Container) GetString(tag) (s)
+//@   refines "github.com/brutella/hc/util.Container.GetString"
+//@   requires itemsOK(t)
+//@   pure
+//@   ensures s == tostr(tlvget(wire(t), tag))
+
+// BytesBuffer: the serialisation is exactly the wire encoding of the items, in order.
+//@ func (t *tlv8Container) BytesBuffer() (b)
+//@   refines "github.com/brutella/hc/util.Container.BytesBuffer"
+//@   requires itemsOK(t)
+//@   fresh b
+//@   pure
+//@   ensures b != nil && stream(b) == wire(t)
+//@   loop 0
+//@     invariant idx: 0 <= loopidx && loopidx <= len(t.Items)
+//@     invariant acc: stream(addr(b)) == wpre(t, loopidx) && wmark(loopidx)
+
+// SetBytes appends ceil(len(value)/255) items: fragments of 255 bytes and a last, shorter one (none for an empty
+// value). A reader assembles, for this tag, the previous value followed by value, and for every other tag what it did.
+//@ func (t *tlv8Container) SetBytes(tag, value)
+//@   refines "github.com/brutella/hc/util.Container.SetBytes"
+//@   requires itemsOK(t)
+//@   modifies t.Items, t.Items[:], wpre(t)
+//@   ensures base: t != nil && wpre(t, 0) == empty()
+//@   ensures ilen: itemsLen(t)
+//@   ensures iwf: itemsWf(t)
+//@   ensures istep: itemsStep(t)
+//@   ensures count: len(t.Items) == old(len(t.Items)) + (len(value) + 254) / 255
+//@   ensures tags: forall(n, old(len(t.Items)), len(t.Items), t.Items[n].tag == tag)
+//@   ensures prefix: wpre(t, old(len(t.Items))) == old(wire(t))
+//@   ensures value: forallv("u:int", tlvget(wire(t), u) == ite(u == tag, cat(old(tlvget(wire(t), u)), old(seq(value))), old(tlvget(wire(t), u))), tlvget(wire(t), u))
+//@   ghostset grow after store Items#1: wpre(t, len(t.Items)) = cat(wpre(t, len(t.Items) - 1), tlvitem(t.Items[len(t.Items) - 1].tag, seq(t.Items[len(t.Items) - 1].value)))
+//@   loop 0
+//@     invariant base: t != nil && wpre(t, 0) == empty() && r != nil && len(t.Items) >= old(len(t.Items))
+//@     invariant ilen: itemsLen(t)
+//@     invariant iwf: itemsWf(t)
+//@     invariant istep: itemsStep(t)
+//@     invariant own: (ref(t.Items) == old(ref(t.Items)) && smt("(= (styp $1) (styp $2))", t.Items, old(t.Items))) || !existed(t.Items)
+//@     invariant rest: len(stream(r)) <= len(value) && stream(r) == sub(old(seq(value)), len(value) - len(stream(r)), len(value))
+//@     invariant count: (len(value) - len(stream(r))) % 255 == 0 && len(t.Items) == old(len(t.Items)) + (len(value) - len(stream(r))) / 255
+//@     invariant tags: forall(n, old(len(t.Items)), len(t.Items), t.Items[n].tag == tag)
+//@     invariant prefix: wpre(t, old(len(t.Items))) == old(wire(t))
+//@     invariant value: forallv("u:int", tlvget(wire(t), u) == ite(u == tag, cat(old(tlvget(wire(t), u)), sub(old(seq(value)), 0, len(value) - len(stream(r)))), old(tlvget(wire(t), u))), tlvget(wire(t), u))
+
+//@ func (t *tlv8Container) SetByte(tag, b)
+//@   refines "github.com/brutella/hc/util.Container.SetByte"
+//@   requires itemsOK(t)
+//@   modifies t.Items, t.Items[:], wpre(t)
+//@   ensures inv: itemsOK(t)
+//@   ensures value: forallv("u:int", tlvget(wire(t), u) == ite(u == tag, cat(old(tlvget(wire(t), u)), unit(b)), old(tlvget(wire(t), u))), tlvget(wire(t), u))
+//@ func (t *tlv8Container) SetString(tag, value)
+//@   refines "github.com/brutella/hc/util.Container.SetString"
+//@   requires itemsOK(t)
+//@   modifies t.Items, t.Items[:], wpre(t)
+//@   ensures inv: itemsOK(t)
+//@   ensures value: forallv("u:int", tlvget(wire(t), u) == ite(u == tag, cat(old(tlvget(wire(t), u)), seq(value)), old(tlvget(wire(t), u))), tlvget(wire(t), u))
 
 // ---------------------------------------------------------------- file storage (C18, C19)
 // keypath(f, key): the file that holds key in store f.
